@@ -79,7 +79,7 @@ def element(fl, assign, named_field, name, sp0):
         renamed = ch in 'rxy'
         if renamed and not named_field:
             return None
-        key = 'k%d' % fi if renamed else ('f%d' % fi if fl.style == 'n' else '_%d' % fi)
+        key = ('k%d' % fi if (sp0 + fi) % 2 else 'kü%d' % fi) if renamed else ('f%d' % fi if fl.style == 'n' else '_%d' % fi)
         tys.append('ID' if ch in 'iz' else FIELD_TY[fi % 3])
         vals.append(['ID(0)', 'ID(1)'] if ch in 'iz' else FIELD_VAL[fi % 3])
         metas.append(field_meta(ch, key, sp0 + fi))
@@ -103,14 +103,15 @@ def build_struct(fl, assign, nmode, nf_flip, sp, ctx='alone', generic=False):
     # for a unit struct educe treats the shape as "not tuple" => named_field defaults to true
     named_default = not is_tuple
     named_field = named_default != nf_flip
-    name = {'d': 'Ty', 'r': 'Renamed', 'o': None}[nmode]
+    rn = 'Renamed' if sp % 2 else 'Renämed_ß'
+    name = {'d': 'Ty', 'r': rn, 'o': None}[nmode]
     el = element(fl, assign, named_field, name, sp)
     if el is None:
         return None
     style, shown, tys, metas, vals = el
     if fl.style == 'u':
         style = 'struct' if named_field else 'tuple'   # unit struct: builder without fields
-    tmeta = name_meta(nmode, 'Renamed', sp, 'type')
+    tmeta = name_meta(nmode, rn, sp, 'type')
     if nf_flip:
         tmeta = combine(tmeta, ['named_field = %s', 'named_field(%s)'][sp % 2] % ('true' if named_field else 'false'))
     gen, tyn, where = '', 'Ty', ''
@@ -147,8 +148,10 @@ def build_struct(fl, assign, nmode, nf_flip, sp, ctx='alone', generic=False):
 
 
 def build_enum(fl, assign, emode, vmode, nf_flip, place_first, sp, ctx='alone', generic=False):
-    ename = {'d': None, 'e': 'Ty', 'r': 'Renamed'}[emode]
-    vname = {'d': 'V%d' % (0 if place_first else 1), 'r': 'Vx', 'o': None}[vmode]
+    rn = 'Renamed' if sp % 2 else 'Größen'
+    vn = 'Vx' if (sp // 2) % 2 else 'Vß'
+    ename = {'d': None, 'e': 'Ty', 'r': rn}[emode]
+    vname = {'d': 'V%d' % (0 if place_first else 1), 'r': vn, 'o': None}[vmode]
     focus = 0 if place_first else 1
     if ename and vname:
         name = '%s::%s' % (ename, vname)
@@ -159,8 +162,8 @@ def build_enum(fl, assign, emode, vmode, nf_flip, place_first, sp, ctx='alone', 
     if el is None:
         return None
     style, shown, tys, metas, vals = el
-    emeta = name_meta(emode, 'Renamed', sp, 'type')
-    vmeta = name_meta(vmode, 'Vx', sp + 1, 'variant')
+    emeta = name_meta(emode, rn, sp, 'type')
+    vmeta = name_meta(vmode, vn, sp + 1, 'variant')
     if nf_flip:
         if fl.style == 'u':
             return None
